@@ -1405,6 +1405,61 @@ def lazy_wrapping(run):
     rets = [r for r in walk_self(alias.node) if isinstance(r, ast.Return)]
     run.check(bool(rets) and all(r.value is not None and dotted(r.value) == 'self.stream' for r in rets),
               'ASGI: bounded_stream is an alias of the memoised stream', alias, rets[0] if rets else alias.name)
+    asgi_who_may_construct(run, g, host2, call2)
+
+
+ASGI_CTOR_ARGS = (('content_length', 'self.content_length'), ('first_event', 'self._first_event'), ('receive', 'self._receive'))
+
+
+def asgi_who_may_construct(run, accessor: Func, memo_host: Func, memo_call):
+    """Who may construct: wherever a member of the ASGI request class builds the body-stream wrapper -- the memoised
+    `stream` accessor or anything else (an alias that takes a shortcut, a helper) -- it passes the declared length, the
+    preloaded first event and the receive callable, exactly like the accessor.  A wrapper built without
+    `content_length=self.content_length` has an unlimited budget; stored in the memo it IS the request's stream from then on.
+    Witness: Content-Length: 5 and Transfer-Encoding present, 80 bytes delivered: `req.bounded_stream.read()` (first access
+    through the alias) returns 80 bytes and goes on awaiting receive() past the declared body."""
+    p = run.project
+    cq = accessor.cls.qual if accessor.cls is not None else None
+    if cq is None:
+        raise AnchorError('%s is not a method of the request class' % accessor.qual)
+    c = p.cls(cq)
+    members = list(c.methods.values()) + [m for m in getattr(c, 'accessors', {}).values() if isinstance(m, Func)]
+    seen_memo = False
+    n_other = 0
+    done = set()
+    for m in sorted(members, key=lambda m: m.qual):
+        if id(m.node) in done:
+            continue
+        done.add(id(m.node))
+        for x in walk_self(m.node):
+            if not isinstance(x, ast.Call):
+                continue
+            if x is memo_call:
+                seen_memo = True
+                continue
+            fn = x.func
+            if not (isinstance(fn, (ast.Name, ast.Attribute))):
+                continue
+            tgt = p.callee(m, x)
+            if not (isinstance(tgt, Class) and tgt.qual == ASGI):
+                continue
+            n_other += 1
+            run.use(m)
+            if any(isinstance(a, ast.Starred) for a in x.args) or any(k.arg is None for k in x.keywords):
+                raise UnknownIdiom('%s: the stream wrapper is built with star-arguments (`%s`)' % (m.qual, short(x, 60)))
+            for name, want in ASGI_CTOR_ARGS:
+                a = _ctor_arg(p, ASGI, x, name)
+                run.check(a is not None and dotted(a) == want,
+                          'ASGI: every construction of the stream wrapper in the request class passes %s=%s (here: %s)' % (name, want, m.name),
+                          m, '%s(...) with %s=%s' % (unparse(x.func), name, unparse(a) if a is not None else '<missing>'), where=m.loc(x),
+                          runtime_witness='Content-Length: 5 over a longer chunked upload, first access through req.%s: the wrapper has no limit, '
+                                          'read() returns everything the server delivers and awaits receive() past the declared body' % m.name
+                          if name == 'content_length' else
+                          'req.%s builds a stream that ignores the preloaded first event / the receive callable' % m.name)
+    if not seen_memo and memo_host.cls is accessor.cls:
+        raise AnchorError('%s: the construction in the memoised accessor was not met while sweeping the class' % cq)
+    run.ok('ASGI: the request class builds the stream wrapper in the memoised accessor%s' % (' and %d other place(s), each with the same arguments' % n_other if n_other else ' only'),
+           accessor.loc(), 'constructions of %s in %s' % (ASGI.rsplit('.', 1)[-1], cq.rsplit('.', 1)[-1]))
 
 
 # ---------------------------------------------------------------------------
